@@ -127,7 +127,10 @@ def fixed_cases():
 
 def parts(tier):
     q = tier == "quick"
-    return [
+    from ..fuzzpart import make_part
+
+    extra = [] if q else [make_part(ID, 200000)]
+    return extra + [
         {"name": "corpus", "kind": "fixed", "cases": fixed_cases},
         {"name": "documents", "kind": "hypothesis", "strategy": s_doc, "examples": 10000 if q else 16 * 30000},
         {"name": "corpus-mutations", "kind": "hypothesis", "strategy": GM.corpus_mutations, "examples": 1500 if q else 16 * 4000},
